@@ -136,7 +136,6 @@ pub fn vp_format_user(username: &str) -> (r: String) ensures str_bytes(r@) == st
 /// `base64::engine::general_purpose::STANDARD.encode(auth)`
 #[verifier::external_body]
 pub fn vp_base64_standard(auth: String) -> (r: String) ensures str_bytes(r@) == base64_std(str_bytes(auth@)) { base64::engine::general_purpose::STANDARD.encode(auth) }
-pub uninterp spec fn dec_digits(n: nat) -> Seq<u8>;
 /// `cert.clone()` (Certificate is a back-end type)
 #[verifier::external_body] pub fn vp_cert_clone(c: &Certificate) -> (r: Certificate) ensures r == *c { c.clone() }
 /// `a == b` on string slices
